@@ -8,7 +8,7 @@ import propbase
 ID = "C04"
 MODULE = "HttpcoreModel.Props.C04Threads"      # imports Props.C04 (and C08 for the lock table)
 THEOREMS = [f"Httpcore.C04.{n}" for n in ("pass_bound_adversarial", "pass_bound", "wait_not_open", "create_only_with_room",
-                                           "cleanupAdv_len", "assignAllAdv_len", "passes_are_serialised")]
+                                           "cleanupAdv_len", "assignAllAdv_len", "passes_are_serialised")] + ["Httpcore.Wrap.failed_establishment_is_dropped", "Httpcore.Wrap.failed_view_dropped"]
 TRUSTED = [
     "Lean 4.33 kernel; axioms per theorem under coverage.theorems",
     "hand-written model Pool.pass of _assign_requests_to_connections, tied by lock-step execution on the real pool with stub connections (this run)",
